@@ -48,7 +48,12 @@ def ob_identity_extensions_not_shadowed(report, prop):
         prog = ex.prog
         handler_fn = rpcpath.stream_handler_fn(prog)
         attached = set()
-        for f in _nested(prog, handler_fn):
+        # the handler body, its closures, and the crate-local helpers it calls (the inserts may sit in `attach_connection_info(&self, &mut request)` or a small metadata struct)
+        hroots = _nested(prog, handler_fn)
+        for g in e2.local_callees(prog, handler_fn, depth=2).values():
+            if re.search(r'request_handler|connection', g.name) or (g.impl_span or '').find('request_handler') >= 0:
+                hroots += _nested(prog, g)
+        for f in {id(x): x for x in hroots}.values():
             for c in _calls(f):
                 if re.search(r'(^|::)Extensions::insert::<', c):
                     attached.add(_last_generic(c))
